@@ -1005,6 +1005,7 @@ impl<'a> Gen<'a> {
             keep_log: false,
             heap_perturb: 0,
             alloc_yield_mean: 0,
+            clock_step_ns: 0,
         }
     }
 
@@ -1085,6 +1086,7 @@ impl<'a> Gen<'a> {
             keep_log: false,
             heap_perturb: 0,
             alloc_yield_mean: 0,
+            clock_step_ns: 0,
         }
     }
 
@@ -1169,6 +1171,7 @@ impl<'a> Gen<'a> {
             keep_log: false,
             heap_perturb,
             alloc_yield_mean: 0,
+            clock_step_ns: *r.pick(&[0u64, 0, 0, 1_000_000, 1_000_000_000, 50_000_000_000]),
         }
     }
 
@@ -1248,6 +1251,7 @@ impl<'a> Gen<'a> {
             heap_perturb: *r.pick(&[0u32, 0, 0, 7, 40, 300]),
             // allocation-point preemption (threads engine): off, coarse, fine
             alloc_yield_mean: *r.pick(&[0u32, 0, 0, 30_000, 4_000, 500]),
+            clock_step_ns: *r.pick(&[0u64, 0, 0, 1_000_000, 1_000_000_000, 50_000_000_000]),
         }
     }
 }
